@@ -1066,7 +1066,8 @@ class CacheHistoryEngine:
     NAME = "cache-history"
     LEVEL = "exploration"
     RULE = (
-        "one run = seeded swarm config + operation/fault list (sequential) or 2-3 scheduled caller threads; "
+        "one run = seeded swarm config + operation/fault list (sequential) or 2-3 scheduled caller threads, or (load-fault-enum) every fault kind at "
+        "every read index 0..15 of one data file, each followed by the first retry; "
         "non-trivial = the run observed a cache key after a perturbing event on the same key (in-place edit of a returned "
         "array, cache restart, store fault during its load, another thread's construction), or made >=2 transform calls after "
         "the scale was fixed, or re-read the Coulomb table after a restart/fault/edit; distinct = distinct run digests "
@@ -1088,8 +1089,8 @@ class CacheHistoryEngine:
 
     def submodes(self, tier):
         if tier == "quick":
-            return [("seq-nofault", 1600), ("seq-fault", 1600), ("threads", 500), ("threads-fault", 300)]
-        return [("seq-nofault", 120000), ("seq-fault", 120000), ("threads", 50000), ("threads-fault", 30000)]
+            return [("seq-nofault", 1600), ("seq-fault", 1600), ("threads", 500), ("threads-fault", 300), ("load-fault-enum", 60)]
+        return [("seq-nofault", 120000), ("seq-fault", 120000), ("threads", 50000), ("threads-fault", 30000), ("load-fault-enum", 2000)]
 
     def determinism_sample(self, tier):
         return 48 if tier == "quick" else 512
@@ -1103,6 +1104,8 @@ class CacheHistoryEngine:
     # ---- generation ------------------------------------------------------------------------------
     def generate(self, seed, submode):
         rng = random.Random(seed)
+        if submode == "load-fault-enum":
+            return self._generate_load_fault_enum(rng, seed)
         cfg = _gen_cfg(rng, submode)
         spec = {"engine": self.NAME, "seed": seed, "submode": submode, "cfg": {"methods": cfg["methods"], "pool": cfg["pool"], "faulty": cfg["faulty"]}}
         if submode.startswith("threads"):
@@ -1122,6 +1125,27 @@ class CacheHistoryEngine:
         else:
             spec["ops"] = [_gen_op(rng, cfg) for _ in range(rng.randint(4, 40))]
         return spec
+
+    def _generate_load_fault_enum(self, rng, seed):
+        """Crash-point enumeration for one load: every fault kind at every read index of the file (and of the
+        Coulomb JSON / a preset table), each followed by the first retry, which must succeed and be pristine."""
+        method = rng.choice(M.METHODS)
+        d = _small_degrees(method, rng, 1)[0]
+        target = rng.choice(["ang", "ang", "ang", "atom", "coulomb", "preset"])
+        ops = []
+        for kind in FAULT_KINDS:
+            for k in range(16):
+                frac = round((k + rng.random()) / 16.0, 4)
+                if target == "coulomb":
+                    ops += [["restart", "all"], ["arm", kind, "atomic_gauss", k, 1, frac], ["coulomb", rng.choice(["H", 6, "O"])], ["coulomb", "C"]]
+                elif target == "preset":
+                    ops += [["restart", "all"], ["arm", kind, "prune_grid", k, 1, frac], ["preset", 6, "coarse", [0.0, 0.0, 0.0], 0], ["preset", 6, "coarse", [0.0, 0.0, 0.0], 0]]
+                elif target == "atom":
+                    a = ["atom", ["gl", 3, 0.0, 1.0], ["deg", [d]], [0.0, 0.0, 0.0], 0, method]
+                    ops += [["restart", "all"], ["arm", kind, method, k, 1, frac], a, a]
+                else:
+                    ops += [["restart", "all"], ["arm", kind, method, k, 1, frac], ["ang", method, "degree", d, True], ["ang", method, "degree", d, True]]
+        return {"engine": self.NAME, "seed": seed, "submode": "load-fault-enum", "cfg": {"methods": [method], "pool": {method: [d]}, "faulty": True, "target": target}, "ops": ops}
 
     # ---- execution -------------------------------------------------------------------------------
     def execute(self, spec, known_keys):
